@@ -411,6 +411,86 @@ def h_thread(n):
     return fn
 
 
+# ---------------------------------------------------------------------------------- float lane (z3 floating point)
+def penalty_order_real(costs):
+    """the REAL select_best_among_inconsistent on two isoforms that have the same events in opposite order (what reflection
+    does to the event list): both must be among the best"""
+    import src.long_read_assigner as lra_
+    by_cost = {}
+    for ev, c in ia.event_subtype_cost.items():
+        if ev.name.startswith(("exon_elongation", "major_exon_elongation")):
+            continue                    # their cost is recomputed from the elongation length
+        by_cost.setdefault(float(c), ev)
+    events = [ia.MatchEvent(by_cost[float(c)]) for c in costs]
+    a = lra_.LongReadAssigner.__new__(lra_.LongReadAssigner)
+    a.params = Params()
+    a.resolve_by_nucleotide_score = lambda profile, isoforms, similarity_function=None, top_scored_factor=None: list(isoforms)
+    best, score = a.select_best_among_inconsistent(None, {"T_fwd": list(events), "T_rev": list(reversed(events))})
+    return sorted(best), score
+
+
+def fp_lane(n_events):
+    def run(ctx):
+        import time
+        import z3
+        table = sorted({float(c) for ev, c in ia.event_subtype_cost.items() if not ev.name.startswith(("exon_elongation", "major_exon_elongation"))})
+        F64, rm = z3.Float64(), z3.RNE()
+        xs = [z3.FP("event%d_cost" % i, F64) for i in range(n_events)]
+        s_ = z3.Solver()
+        for x in xs:
+            s_.add(z3.Or([x == z3.FPVal(c, F64) for c in table]))
+
+        def acc(seq):
+            t = z3.FPVal(0.0, F64)
+            for x in seq:
+                t = z3.fpAdd(rm, t, x)          # penalty_score += event_cost * 1
+            return t
+        s_.add(z3.Not(z3.fpEQ(acc(xs), acc(list(reversed(xs))))))
+        st = {"paths": 0, "paths_reached_assertion": 0, "paths_infeasible": 0, "queries": 0, "obligations": 0, "discharged": 0, "inconclusive": [],
+              "n_inconclusive": 0, "labels": {}, "excluded": {}, "known_hits": {}, "samples": [], "solver_s": 0.0}
+        label = "two isoforms with the same events in opposite order get the same penalty (both are best)"
+        t0 = time.time()
+        tried = 0
+        # every order-sensitive cost sequence the solver finds is a candidate; the real function is the judge
+        while tried < 40:
+            st["queries"] += 1
+            r = s_.check()
+            if str(r) != "sat":
+                if str(r) == "unknown":
+                    st["inconclusive"].append("z3 FP query unknown")
+                    st["n_inconclusive"] += 1
+                break
+            m = s_.model()
+            costs = []
+            for x in xs:
+                v = m.eval(x, model_completion=True)
+                approx = float(z3.simplify(z3.fpToReal(v)).as_fraction())
+                costs.append(min(table, key=lambda c: abs(c - approx)))
+            tried += 1
+            st["paths"] += 1
+            st["paths_reached_assertion"] += 1
+            st["obligations"] += 1
+            st["labels"][label] = st["labels"].get(label, 0) + 1
+            best, score = penalty_order_real(costs)
+            if best != ["T_fwd", "T_rev"]:
+                st["cex"] = {"label": label, "model": {"event_costs": costs}, "detail": {"best": best, "score": score}}
+                break
+            st["discharged"] += 1
+            s_.add(z3.Or([x != z3.FPVal(c, F64) for x, c in zip(xs, costs)]))
+        st["solver_s"] = round(time.time() - t0, 3)
+        st["samples"].append({"label": "order-sensitive cost sequences examined", "witness": {"count": tried, "cost_table": table}})
+        if tried == 0:
+            st["obligations"], st["discharged"], st["paths"], st["paths_reached_assertion"] = 1, 1, 1, 1
+            st["labels"]["no sequence of %d event costs is order sensitive in binary64" % n_events] = 1
+        return st
+    return run
+
+
+def replay_custom(inst, case):
+    best, score = penalty_order_real(case["model"]["event_costs"])
+    return best != ["T_fwd", "T_rev"], "best isoforms %s, score %r" % (best, score)
+
+
 def instances(tier, seed):
     q = tier == "quick"
     P = "src.polya_verification:"
@@ -459,6 +539,11 @@ def instances(tier, seed):
                              "src.alignment_processor:AbstractAlignmentStorage.add_alignment"],
                             "%d alignments (scaled constants), arbitrary shift when the locus is one region, multiples of the bin otherwise" % n_,
                             weight=60 ** n_, budget_s=1200))
+    for n_ in ((3,) if q else (3, 4)):
+        out.append(Instance("penalty_event_order[float64,%d events]" % n_, run=fp_lane(n_), kind="z3-fp",
+                            funcs=["src.long_read_assigner:LongReadAssigner.select_best_among_inconsistent", "src.isoform_assignment:event_subtype_cost"],
+                            bounds="%d events with costs from the real cost table, IEEE binary64 round-to-nearest; up to 40 order-sensitive "
+                                   "sequences found by z3 are replayed on the real function" % n_, weight=10))
     out.append(Instance("mirror_polya_finder", h_polya_finder, ["src.polya_finder:PolyAFinder.detect_polya", "src.polya_finder:PolyAFinder.find_polya_tail",
                                                                 "src.polya_finder:PolyAFinder.find_polyt_head", "src.polya_finder:move_ref_coord_alogn_alignment"],
                         "%d read ends (tail length / purity / internal A-rich end), symbolic alignment start" % len(POLYA_READS), weight=20))
